@@ -782,7 +782,7 @@ def corpus(prop):
 
 
 def generate(prop, rng, tier):
-    count = {"quick": 1100, "thorough": 12000, "search": 3000}[tier]
+    count = {"quick": 900, "thorough": 12000, "search": 2500}[tier]
     fr = {"C11": 0.10, "C02": 0.40, "C20": 0.0}[prop]
     ir = {"C11": 0.20, "C02": 0.25, "C20": 0.0}[prop]
     if tier == "thorough":
